@@ -287,7 +287,9 @@ class GaussianPrior(BasePrior):
         :returns: \
             The gradient of the prior log-probability with respect to the model parameters.
         """
-        return (self.mean - theta[self.variables]) * self.inv_sigma_sqr
+        # (two factors of 1/sigma rather than 1/sigma**2, which leaves the float range
+        # for sigma beyond 1e-154 .. 1e154 although the gradient does not)
+        return ((self.mean - theta[self.variables]) * self.inv_sigma) * self.inv_sigma
 
     def sample(self) -> ndarray:
         """
